@@ -317,7 +317,7 @@ impl AsyncDht {
 
         while let Some(item) = stream.next().await {
             if let Some(mr) = &most_recent {
-                if item.seq() == mr.seq && item.value() > &mr.value {
+                if item.seq() > mr.seq || (item.seq() == mr.seq && item.value() > &mr.value) {
                     most_recent = Some(item)
                 }
             } else {
